@@ -17,11 +17,17 @@ def LocValid (ws : Workspace) (f a b : Nat) : Prop :=
   f < ws.files.size ∧ ValidRange (ws.tree f).chars a b
 
 theorem NodeLoc.valid {ws : Workspace} (hws : ws.WF) {f a b : Nat} (h : NodeLoc ws f a b) : LocValid ws f a b := by
-  obtain ⟨hf, t, hd, rfl, rfl⟩ := h
-  obtain ⟨txt, hs, h0⟩ := hws.tree_spans f
-  refine ⟨hf, ?_⟩
-  rw [hs.chars_eq]
-  exact hs.desc_validRange h0 hd
+  obtain ⟨hf, t, hd, ⟨rfl, rfl⟩ | ⟨htok, rfl, hb, mid, hq⟩⟩ := h
+  · obtain ⟨txt, hs, h0⟩ := hws.tree_spans f
+    refine ⟨hf, ?_⟩
+    rw [hs.chars_eq]
+    exact hs.desc_validRange h0 hd
+  · obtain ⟨txt, hs, h0⟩ := hws.tree_spans f
+    refine ⟨hf, ?_⟩
+    rw [hs.chars_eq]
+    have := (hs.token_inner_valid h0 hd htok hq).1
+    have hb' : b = t.stop - 1 := by omega
+    rw [hb']; exact this
 
 /-! ### the position map / reference lists only contain locations of the hook log -/
 
@@ -572,10 +578,14 @@ theorem referencesExec_ok {ws : Workspace} (hws : ws.WF) (hroot : Index.Workspac
 
 theorem NodeLoc.within {ws : Workspace} (hws : ws.WF) {f a b : Nat} (h : NodeLoc ws f a b) :
     (ws.tree f).start ≤ a ∧ b ≤ (ws.tree f).stop := by
-  obtain ⟨_, t, hd, rfl, rfl⟩ := h
-  obtain ⟨txt, hs, _⟩ := hws.tree_spans f
-  have := hs.desc_within hd
-  omega
+  obtain ⟨_, t, hd, ⟨rfl, rfl⟩ | ⟨htok, rfl, hb, mid, hq⟩⟩ := h
+  · obtain ⟨txt, hs, _⟩ := hws.tree_spans f
+    have := hs.desc_within hd
+    omega
+  · obtain ⟨txt, hs, h0⟩ := hws.tree_spans f
+    have := hs.desc_within hd
+    have := (hs.token_inner_valid h0 hd htok hq).2
+    omega
 
 /-- the doc-comment search only fails in `covering_element` -/
 theorem extractDocComments_ok {root : PTree} {txt : List Char} (hs : Spans root txt) {rs re : Nat}
